@@ -1332,15 +1332,42 @@ func c02EmitCase(w *bufio.Writer, co c02CaseOut, imgFor func(ki int, c c02CmdOut
 		fmt.Fprintf(w, "blk %d %s %d %s %s\n", b.ID, hex.EncodeToString(b.Hdr), len(b.Pay), b.Ents, b.Sizes)
 	}
 	var ops []c02Sys
+	live := map[int]bool{} // keys alive according to the commands (used when a failed compaction shows no block)
 	for ki, c := range co.Cmds {
 		f := strings.Fields(c.Text)
 		start := len(ops)
+		if f[0] == "w" {
+			for _, it := range strings.Split(f[1], ",") {
+				p := strings.Split(it, ":")
+				k, _ := strconv.Atoi(p[1])
+				if p[0] == "p" {
+					live[k] = true
+				} else {
+					delete(live, k)
+				}
+			}
+		}
 		for _, p := range c.Plant {
 			fmt.Fprintln(w, c02LogLine("plant", len(ops), p))
 			ops = append(ops, p)
 		}
 		compacted := c02HasTempCreateOrWrite(c.Sys)
 		order := c02TempOrder(co.Cl, c.Sys)
+		if compacted && order == "-" && co.Faulty {
+			// the only block of the compaction never made it to the temp: the entries are the live keys
+			var ks []int
+			for k := range live {
+				ks = append(ks, k)
+			}
+			sort.Ints(ks)
+			var parts []string
+			for _, k := range ks {
+				parts = append(parts, strconv.Itoa(k)+".0")
+			}
+			if len(parts) > 0 {
+				order = strings.Join(parts, ",")
+			}
+		}
 		if co.Faulty && len(c.Sys) > 0 {
 			var rs []string
 			for _, s := range c.Sys {
